@@ -115,7 +115,7 @@ func (d *streamProp) prop(t *T) {
 	d.random = append(d.random, isRandom)
 	d.words = append(d.words, w)
 	switch w & 3 {
-	case 0:
+	case 3:
 		d.outcomes = append(d.outcomes, 2)
 		t.Fatalf("fail")
 	case 1:
@@ -194,7 +194,7 @@ func unusableFile(k int, word uint64) (content string, unreadable bool) {
 	case 4:
 		return rapidVersion + "#1#2\n0x1", false
 	case 5:
-		return "v0.0.1#5\n0x0", false // other version, would fail if replayed
+		return "v0.0.1#5\n0x3", false // other version, would fail if replayed
 	case 6:
 		return rapidVersion + "#7\n0x2", false // valid: now passes (word&3 == 2)
 	case 7:
@@ -208,15 +208,30 @@ func unusableFile(k int, word uint64) (content string, unreadable bool) {
 	case 11:
 		return rapidVersion + "#7\n0x1", false // valid: skipped when replayed (word&3 == 1)
 	case 12:
-		return "#7\n0x0", false // missing version
+		return "#7\n0x3", false // missing version
 	case 13:
-		return rapidVersion + "#-1\n0x0", false // negative seed
-	default:
-		return rapidVersion + "#7\n0x0", true // would fail, but cannot be opened
+		return rapidVersion + "#-1\n0x3", false // negative seed
+	case 14:
+		return rapidVersion + "#7\n0x3", true // would fail, but cannot be opened
+	case 15:
+		return rapidVersion + "0#7\n0x3", false // version with the current one as a strict prefix; would fail if replayed
+	case 16:
+		return rapidVersion + "-rc1#7\n0x3", false
+	case 17:
+		return rapidVersion[:len(rapidVersion)-1] + "#7\n0x3", false // strict prefix of the current version
+	case 18:
+		return rapidVersion + "#7\n2", false // one-character data line (word 2: passes when replayed)
 	}
+	// 19.. : every truncation of a valid file whose full form would pass when replayed
+	valid := rapidVersion + "#7\n0x2\n0x12"
+	n := k - 19
+	if n > len(valid) {
+		n = len(valid)
+	}
+	return valid[:n], false
 }
 
-const nUnusable = 15
+var nUnusable = 19 + len(rapidVersion+"#7\n0x2\n0x12") + 1
 
 // H_C17_ignored: unusable fail files are ignored and change neither schedule nor verdict.
 func H_C17_ignored() {
@@ -300,7 +315,7 @@ func H_C09_failfileFlaky() {
 	name := "TestFoo"
 	dir, _ := failFileName(name)
 	_ = vfsMkdirAll(dir, 0775)
-	vfs.files[filepath.Join(dir, kindaSafeFilename(name)+"-2026-1.fail")] = rapidVersion + "#7\n0x5"
+	vfs.files[filepath.Join(dir, kindaSafeFilename(name)+"-2026-1.fail")] = rapidVersion + "#7\n0x7"
 	o := &outcomeProp{}
 	tb := newVTB(name)
 	flags.checks = 1
